@@ -1,6 +1,7 @@
 (* C15  A graceful close persists what memory held.  One-key model (Hybrid/Engine.v). *)
 From Coq Require Import List NArith Bool.
 From FV Require Import Hybrid.Engine Hybrid.EngineInv Hybrid.EngineThms Hybrid.EngineVers.
+From FV Require Mem.Shard Mem.ShardInv Mem.ShardRefs Mem.ShardThms Mem.ShardFlush.
 Import ListNotations.
 Open Scope N_scope.
 
@@ -72,3 +73,29 @@ Example c15_nonvacuous :
   lookup_now (do_recover c (do_close c s 1) (kdisk (do_close c s 1))) = Some 2 /\
   restart_ok c s 1 (kdisk (do_close c s 1)).
 Proof. vm_compute. repeat split; try discriminate. exists 1. split; auto. Qed.
+
+(* the memory tier's part of close (M-SHARD, RawCache::flush): whatever sequence of operations led to the state, and
+   whatever handles are still alive, the flush leaves the shard empty and gives every resident record exactly the
+   eviction step - the Evict event and, with the pipe installed, the hand-off to the disk tier *)
+Theorem c15_flush_offloads_every_resident_record : forall c cap ops s vs s',
+  ShardThms.good c -> Shard.run c (Shard.init_shard cap) ops = Some s -> Shard.flush c s vs = Some s' ->
+  Shard.idx s' = [] /\
+  forall k i, In (k, i) (Shard.idx s) ->
+    In (Shard.EvEvict, i) (Shard.elog s') /\ (Shard.piped c = true -> In i (Shard.plog s')).
+Proof.
+  intros c cap ops s vs s' Hg Hr Hf. eapply ShardFlush.flush_takes_everything; [|exact Hf].
+  exact (ShardRefs.inv_idx c s (ShardThms.reach_inv c cap ops s Hg Hr)).
+Qed.
+Print Assumptions c15_flush_offloads_every_resident_record.
+
+(* F19 (fixed by 517c997): the pinned snapshot's flush was evict_all.  With LRU a record that is looked up and whose
+   handle is still alive is pinned, evict_all stops with it still resident (the implementation's empty victim list is
+   admissible), so close() never handed it to the disk tier; the repaired flush must take it *)
+Example c15_refuted_F19_evict_all_leaves_a_referenced_record :
+  let c := Shard.mkCfg true true false false in
+  let ops := [Shard.OInsert 7 1 1 7 false false 1 []; Shard.ODrop 1; Shard.OGet 7 2] in
+  exists s s', Shard.run c (Shard.init_shard 4) ops = Some s /\
+    Shard.step c s (Shard.OEvictAll []) = Some s' /\ Shard.idx s' <> [] /\ Shard.plog s' = [] /\
+    Shard.step c s (Shard.OFlush []) = None /\
+    exists s'', Shard.step c s (Shard.OFlush [7]) = Some s'' /\ Shard.idx s'' = [] /\ Shard.plog s'' = [0%nat].
+Proof. vm_compute. eexists _, _. repeat split; try discriminate. eexists. repeat split. Qed.
